@@ -124,6 +124,27 @@ def check(pid, tier, seed):
             for l in sample_l:
                 st = cases[("LangCode" if l in names_of else "LangName", "_", "CountryCode" if c in country_by_code else "CountryName") + ((".",) if suffix else ())]
                 inputs.append((l + "_" + c + suffix, expected([l, "_", c, ".", "UTF-8"], st), "sample language x table country"))
+    # state that survives from one call to the next (a cache, a static buffer): a hit, then a miss, then the same miss with another country
+    for k, kc in (("en", "GB"), ("hu", "HU"), (names_of[multi[0]][0], "US")):
+        for u in ("xx", "Klingon", "e", "EN"):
+            for c1, c2 in (("GB", "US"), ("United States", "GB"), ("US", "US")):
+                st_hit = cases[("LangCode" if k in names_of else "LangName", "_", "CountryCode" if kc in country_by_code else "CountryName")]
+                inputs.append((k + "_" + kc, expected([k, "_", kc], st_hit), "stateful: hit"))
+                for c in (c1, c2):
+                    st_miss = cases[("Unknown", "_", "CountryCode" if c in country_by_code else "CountryName")]
+                    inputs.append((u + "_" + c, expected([u, "_", c], st_miss), "stateful: miss after hit"))
+    # conversion specifications must never be interpreted (the fallback path prints the string)
+    for s0 in ("%s%s%s%s%s%s%s%s", "xx_%n", "%n%n%n%n_GB", "%5d_GB", "%99999999d_GB.%s", "en_%s%n", "%p%p%p%p%p%p%p%p%n"):
+        pieces0 = []
+        cur0 = ""
+        for ch in s0:
+            if ch in "_.":
+                pieces0 += [cur0, ch]
+                cur0 = ""
+            else:
+                cur0 += ch
+        pieces0.append(cur0)
+        inputs.append((s0, expected(pieces0, {"verdict": "fallback", "langAt": 1, "countryAt": 3}), "format string"))
     # random strings: classified by their first four pieces
     nrand = {"quick": 1500, "thorough": 300000}[tier]
     alphabet = ["_", ".", "en", "GB", "ca", "English", "United Kingdom", "x", "Z", " ", "\xe9", "\x01", "\xff", "a" * 40, "UTF-8"]
